@@ -140,3 +140,29 @@ BENIGN = [
     ("b-optional-ws-as-match", ALL, [(P, "    // Skip optional whitespace\n    let (input, _) = optional(whitespace)(input)?;\n\n    let (input, terminated)", "    // Skip optional whitespace\n    let input = match whitespace(input) {\n        Ok((i, _)) => i,\n        Err(_) => input,\n    };\n\n    let (input, terminated)")]),
     ("b-queue-overflow-match", ALL, [(Q, "            if let Some(value) = self.0.back_mut() {\n                *value = Error::QueueOverflow;\n            }", "            match self.0.back_mut() {\n                Some(newest) => *newest = Error::QueueOverflow,\n                None => {}\n            }")]),
 ]
+
+
+# round 5: every refactoring delivered by the independent sub-agents (selftest/refactors/<name>/patch.diff) is a benign
+# entry of its own, and some of them carry a mutant: the refactored form with one thing broken (so that accepting an
+# idiom - hand-written scan, iterator-adaptor scan, counting-loop take_while - is never accepting it blindly)
+import glob as _glob
+import os as _os
+_here = _os.path.dirname(_os.path.abspath(__file__))
+for _d in sorted(_glob.glob(_os.path.join(_here, "refactors", "*"))):
+    if _os.path.exists(_os.path.join(_d, "patch.diff")):
+        BENIGN.append(("r-" + _os.path.basename(_d), ALL, [("@patch", "refactors/%s/patch.diff" % _os.path.basename(_d), None)]))
+
+MUTANTS += [
+    ("idiom-handscan-bound-le", ["C05"], [("@patch", "refactors/process-R2/patch.diff", None),
+                                        (I, "while position < unscanned.len() && unscanned[position] != b'\\n' {", "while position <= unscanned.len() && unscanned[position] != b'\\n' {")]),
+    ("idiom-handscan-wrong-byte", ["C07", "C08"], [("@patch", "refactors/process-R2/patch.diff", None),
+                                                  (I, "while position < unscanned.len() && unscanned[position] != b'\\n' {", "while position < unscanned.len() && unscanned[position] != b';' {")]),
+    ("idiom-iter-count-wrong-class", ["C03"], [("@patch", "refactors/parser-leaves-R4/patch.diff", None),
+                                              (P, "let len = 1 + rest.iter().take_while(|c| c.is_ascii_digit()).count();", "let len = 1 + rest.iter().take_while(|c| c.is_ascii_alphanumeric()).count();")]),
+    ("idiom-iter-count-off-by-one", ["C03"], [("@patch", "refactors/parser-leaves-R4/patch.diff", None),
+                                             (P, "let len = 1 + rest.iter().take_while(|c| c.is_ascii_digit()).count();", "let len = rest.iter().take_while(|c| c.is_ascii_digit()).count();")]),
+    ("idiom-take_while-loop-pred-negated", ["C11", "C12"], [("@patch", "refactors/parser-leaves-r2-R2/patch.diff", None),
+                                                           (P, "while taken < input.len() && pred(input[taken]) {", "while taken < input.len() && !pred(input[taken]) {")]),
+    ("idiom-take_while-loop-unguarded", ["C05"], [("@patch", "refactors/parser-leaves-r2-R2/patch.diff", None),
+                                                 (P, "while taken < input.len() && pred(input[taken]) {", "while pred(input[taken]) {")]),
+]
